@@ -11,7 +11,6 @@ of local variables, so a behaviour-preserving renaming of locals cannot change a
 from __future__ import annotations
 
 import ast
-import copy
 
 from .index import FuncInfo, norm
 
@@ -68,12 +67,15 @@ class Canon:
     def cn(self, expr: ast.AST) -> str:
         if expr is None:
             return ""
-        e = copy.deepcopy(expr)
-        # walk original and copy in lockstep so that typing uses the original nodes (which carry parents/positions)
-        for o, c in zip(ast.walk(expr), ast.walk(e)):
-            if isinstance(o, ast.Name) and o.id in self._map:
-                c.id = self.sym(o)
-        return norm(e)
+        touched = [(x, x.id) for x in ast.walk(expr) if isinstance(x, ast.Name) and x.id in self._map]
+        syms = [self.sym(x) for x, _ in touched]  # typed before any renaming
+        try:
+            for (x, _), s_ in zip(touched, syms):
+                x.id = s_
+            return norm(expr)
+        finally:
+            for x, old in touched:
+                x.id = old
 
     def is_local(self, name: str) -> bool:
         return name in self._map
